@@ -129,6 +129,26 @@ class HarnessDied(Exception):
         self.op = op
         self.stderr = stderr
 
+    def __reduce__(self):
+        # must survive the trip from a pool worker to the parent (the default pickling re-calls __init__ with the
+        # message only, which fails in the parent's result thread and hangs the pool)
+        return (HarnessDied, (self.rc, self.op, self.stderr))
+
+
+class OpPanicked(Exception):
+    """A panic escaped a harness op (the op guards every library call it expects might panic)."""
+
+    def __init__(self, op, args, msg, loc, payload=b""):
+        super().__init__("panic escaped op %s: %s at %s" % (op, msg, loc))
+        self.op, self.opargs, self.msg, self.loc, self.payload = op, args, msg, loc, payload
+
+    def __reduce__(self):
+        return (OpPanicked, (self.op, self.opargs, self.msg, self.loc, self.payload))
+
+    def in_library(self):
+        # the harness crate's own files are reported relative to it (src/...); library files by crate path
+        return not self.loc.startswith("src/")
+
 
 class Harness:
     def __init__(self, binary, stack_kb=None, wrapper=None):
@@ -175,6 +195,9 @@ class Harness:
             data = self.p.stdout.read(n)
             if len(data) != n:
                 raise BrokenPipeError
+            if data.startswith(b'{"op_panicked":'):
+                info = json.loads(data)["op_panicked"]
+                raise OpPanicked(op, [str(a) for a in args], info.get("panic", "?"), info.get("loc", "?"), payload[:4000])
             return data
         except (BrokenPipeError, ValueError, OSError):
             rc = self.p.wait()
